@@ -186,6 +186,17 @@ def eval_c05(case, timeout_s=20):
     ref = cp_sem.all_solutions(desc, hints)
     info["n_ref"] = len(ref)
     info["status"] = res.status.name
+    viol += judge_c05(desc, solver, res, ref[0] if ref else None, exact=True)
+    info["feasible_claim"] = None if res.status == Status.MAX_ITER else (res.status != Status.INFEASIBLE)
+    return viol, info
+
+
+def judge_c05(desc, solver, res, witness, exact):
+    """the C05 contract on one Result: every returned assignment is checked directly against the reference semantics;
+    INFEASIBLE is refuted by `witness` (an assignment that satisfies everything and agrees with the hints), found by
+    brute force (exact=True) or planted / certified by the generator (exact=False: no witness = no judgement)."""
+    from solvor.types import Status
+    viol = []
     sols = []
     if res.solution is not None:
         sols.append(("solution", res.solution))
@@ -196,22 +207,26 @@ def eval_c05(case, timeout_s=20):
     for nm, s in sols:
         miss = [n for n in names if n not in s]
         if miss:
-            viol.append((f"C05/Model.solve[{solver}]/ensures:every-named-variable-has-a-value", f"{nm}={s} lacks {miss}"))
+            viol.append((f"C05/Model.solve[{solver}]/ensures:every-named-variable-has-a-value", f"{nm}={_short(s)} lacks {miss[:6]}"))
             continue
         out = [n for n in names if not (dom[n][0] <= s[n] <= dom[n][1])]
         if out:
-            viol.append((f"C05/Model.solve[{solver}]/ensures:value-inside-domain", f"{nm}={s}: {out} outside the declared domain"))
+            viol.append((f"C05/Model.solve[{solver}]/ensures:value-inside-domain", f"{nm}={_short(s)}: {out[:6]} outside the declared domain"))
             continue
         for c in desc["constraints"]:
             if not cp_sem.holds(c, s):
-                viol.append((f"C05/Model.solve[{solver}]/ensures:satisfies-every-added-constraint[{c[0]}]", f"{nm}={s} breaks {c}"))
+                viol.append((f"C05/Model.solve[{solver}]/ensures:satisfies-every-added-constraint[{c[0]}]", f"{nm}={_short(s)} breaks {_short(c)}"))
                 break
-    if res.status == Status.INFEASIBLE and ref:
-        viol.append((f"C05/Model.solve[{solver}]/ensures:INFEASIBLE-only-if-none-exists", f"INFEASIBLE but e.g. {ref[0]} satisfies everything"))
+    if res.status == Status.INFEASIBLE and witness is not None:
+        viol.append((f"C05/Model.solve[{solver}]/ensures:INFEASIBLE-only-if-none-exists", f"INFEASIBLE but e.g. {_short(witness)} satisfies everything"))
     if res.status == Status.OPTIMAL and res.solution is None:
         viol.append((f"C05/Model.solve[{solver}]/ensures:returns", "OPTIMAL without a solution"))
-    info["feasible_claim"] = None if res.status == Status.MAX_ITER else (res.status != Status.INFEASIBLE)
-    return viol, info
+    return viol
+
+
+def _short(x, n=400):
+    s = str(x)
+    return s if len(s) <= n else s[:n] + "..."
 
 
 def eval_c05_chunk(cases):
